@@ -126,6 +126,59 @@ def judge_stateful_actuate(s):
     return None
 
 
+def judge_observed(s):
+    """looking at a state (every observation function) leaves its doors and boxes exactly as they are: only ACTUATE on the
+    faced cell changes them; afterwards ACTUATE still does what the reference says"""
+    from .. import obs as O
+    from ..desc import sdesc
+
+    st = mkstate(s)
+    for name in O.ALL_FUNCS:
+        for area in (((-2, 0), (-1, 1)), ((-1, 1), (-1, 1))):
+            if not O.applicable(name, area):
+                continue
+            O.observe(name, area, st)
+            if sdesc(st) != s:
+                return f'computing the {name} observation (area {area}) changed the doors / boxes of the state: {show_rows(sdesc(st)[0])}'
+    fn = dyn.chain_fn(('actuate_door', 'actuate_box'))
+    fn(st, dyn.ACT['ACTUATE'])
+    want = R.ref_actuate_box(R.ref_actuate_door(s, 'ACTUATE'), 'ACTUATE')
+    if sdesc(st)[0] != want[0]:
+        return 'after the state was observed, ACTUATE changes the grid differently from the reference'
+    return None
+
+
+def show_rows(rows):
+    from ..desc import show
+    return show((rows, 0, 0, 'F', U.NONE))
+
+
+def judge_keydoor_resets(shape, script):
+    """an episode opens the door in place (what actuate_door does); the NEXT reset again delivers a LOCKED door, and shares
+    neither the door nor the key object with the earlier initial state"""
+    from gym_gridverse.grid_object import Door
+    from .. import resets as RSX
+
+    first = RSX.call('keydoor', {'shape': shape}, dyn.ChoiceRng(script))
+    if isinstance(first, tuple):
+        return None
+    doors = [o for row in first.grid.objects for o in row if isinstance(o, Door)]
+    keys = [o for row in first.grid.objects for o in row if type(o).__name__ == 'Key']
+    for d in doors:
+        d.state = Door.Status.OPEN
+    second = RSX.call('keydoor', {'shape': shape}, dyn.ChoiceRng(script))
+    if isinstance(second, tuple):
+        return f'the second keydoor reset raised {second[1]}'
+    doors2 = [o for row in second.grid.objects for o in row if isinstance(o, Door)]
+    keys2 = [o for row in second.grid.objects for o in row if type(o).__name__ == 'Key']
+    if any(d.state is not Door.Status.LOCKED for d in doors2):
+        return (f'keydoor{shape}: after the door of one episode was opened, the next reset delivers a door that is '
+                f'{[d.state.name for d in doors2]} (no key was used in this episode)')
+    if {id(o) for o in doors + keys} & {id(o) for o in doors2 + keys2}:
+        return f'keydoor{shape}: two initial states share their door / key object (opening one opens the other)'
+    return None
+
+
 def judge_repose(s):
     """an agent re-posed through its public `transform` attribute (after it already acted once) actuates what it faces NOW"""
     from gym_gridverse.envs.transition_functions import transition_function_registry as TF
@@ -197,6 +250,11 @@ def make_hooks(env, name):
 
 
 def replay(case):
+    if case['kind'] == 'observed':
+        from ..desc import tup
+        return judge_observed(tup(case['s']))
+    if case['kind'] == 'keydoor_resets':
+        return judge_keydoor_resets(tuple(case['shape']), list(case['script']))
     if case['kind'] == 'job':
         return dyn.replay_job(case, _worker)
     if case['kind'] == 'step':
@@ -234,10 +292,19 @@ def run(rep, tier, seed):
             m = judge_stateful_actuate(s0)
             if m:
                 rep.violation({'kind': 'stateful_actuate', 's': s0, 'sig': {'part': 'stateful'}}, m)
+            m = judge_observed(s0)
+            if m:
+                rep.violation({'kind': 'observed', 's': s0, 'sig': {'part': 'observed'}}, m)
             if held == U.NONE:
                 m = judge_repose(s0)
                 if m:
                     rep.violation({'kind': 'repose', 's': s0, 'sig': {'part': 'repose'}}, m)
+    for shape in ((5, 5), (7, 7), (4, 6)):
+        for script in ([], [1], [0, 1, 1]):
+            sb += 1
+            m = judge_keydoor_resets(shape, script)
+            if m:
+                rep.violation({'kind': 'keydoor_resets', 'shape': shape, 'script': script, 'sig': {'part': 'keydoor_resets'}}, m)
     rep.part('stateful_and_reposed', cases=sb)
     kn, km = judge_subclass_key()
     if km:
